@@ -1,5 +1,5 @@
 """DataFrameModel definitions used by C17 (no postponed annotations in this module)."""
-from typing import Optional, Union
+from typing import Annotated, Optional, Union
 
 import pandera as pa
 from pandera.typing import DataFrame
@@ -30,4 +30,11 @@ ANNOTATIONS = {
     "OptM": (Optional[DataFrame[M]], ["M"], True),
     "OptMc": (Optional[DataFrame[Mc]], ["Mc"], True),
     "UnionMM2": (Union[DataFrame[M], DataFrame[M2]], ["M", "M2"], False),
+    # the same annotations spelled with a forward reference inside / with metadata around
+    "OptMq": (Optional["DataFrame[M]"], ["M"], True),
+    "OptMcq": (Optional["DataFrame[Mc]"], ["Mc"], True),
+    "AnnM": (Annotated[DataFrame[M], "some metadata"], ["M"], False),
 }
+
+# names the forward references resolve against (globals of the generated functions)
+FORWARD_NAMES = {"DataFrame": DataFrame, "M": M, "Mc": Mc, "M2": M2, "Optional": Optional, "Union": Union}
